@@ -50,7 +50,7 @@ def run(ctx):
         traces.append(tp)
     elif prop == "C13":
         tp = ctx.path("rule", "total.ndjson")
-        stats = ctx.driver_json(["rule-total", "--cases", casep, "--out", tp, "--seed", ctx.seed, "--random", 300 if q else 5000],
+        stats = ctx.driver_json(["rule-total", "--cases", casep, "--out", tp, "--seed", ctx.seed, "--random", 300 if q else 30000],
                                 timeout=3000)["stats"]
         traces.append(tp)
         tp2 = ctx.path("rule", "build.ndjson")      # Build/Parse totals on the well-formed cases too
@@ -62,7 +62,7 @@ def run(ctx):
         traces.append(tp2)
     else:
         tp = ctx.path("rule", "flags.ndjson")
-        stats = ctx.driver_json(["rule-flags", "--cases", casep, "--out", tp, "--seed", ctx.seed, "--reps", 2 if q else 12],
+        stats = ctx.driver_json(["rule-flags", "--cases", casep, "--out", tp, "--seed", ctx.seed, "--reps", 2 if q else 120],
                                 timeout=3000)["stats"]
         traces.append(tp)
     ctx.log("real code: %s" % stats)
